@@ -27,6 +27,13 @@ RULE = (
     "A class is (layout, previous state, which value/eclass features occur) for the round trip and (layout, crash plan, "
     "outcome) for the sweep; distinct_nontrivial counts the classes observed."
 )
+RULE += (
+    " Fault variants per scenario: crash before each mutating syscall, crash at the first Python line after each "
+    "rename/link/symlink returns, torn write at each open-for-write, and each write()/writelines() call on a file "
+    "opened for writing below the scratch root failing after half of its data with OSError(ENOSPC) resp. "
+    "KeyboardInterrupt (process alive, the code's own error handling runs; afterwards old-or-new, and a later "
+    "fault-free run must give the complete new state)."
+)
 ASSUMPTIONS = [
     "Excl: keys/values containing a line break (the format is line based) or a tab in eclass names/paths (the eclass field separator)",
     "Excl: values with leading or trailing whitespace (entries are read with strip_whitespace=True; observed: 'a ' comes back as 'a', ' b' survives)",
@@ -261,7 +268,7 @@ def check_sweep(scr, layout, cpv, prev, op_kind, ent, only_plan=None):
         return [dict(desc, plan=None, msg=f"fault-free {op_kind} failed: {status} {value!r}")], {}, 0
     new_obs = observe()
     viol, classes, n = [], {}, 0
-    for plan in sw.plans(events):
+    for plan in sw.plans(events, scr.nwrites):
         if only_plan is not None and list(plan) != list(only_plan):
             continue
         n += 1
@@ -295,10 +302,19 @@ def check_sweep(scr, layout, cpv, prev, op_kind, ent, only_plan=None):
                     f"the old nor the new state: {what} (old keys {old_obs['keys']!r}, new keys {new_obs['keys']!r})"[:900],
                 )
             )
-        if status != "crashed":
+        if not sw.fired(status):
             viol.append(dict(desc, plan=list(plan), msg=f"engine: plan {plan} did not fire ({status})"))
-        ev = events[plan[1]][0] if plan[1] < len(events) else "end"
-        key = f"sweep:{layout}:{op_kind}:{plan[0]}@{ev}:{out}"
+        if plan[0] in sw.WRITE_FAULTS:
+            # the process survived the failed write: a later fault-free store must give the complete new state
+            sw.rerun(op)
+            obs2 = observe()
+            if obs2 != new_obs:
+                out += "+recovery-bad"
+                viol.append(
+                    dict(desc, plan=list(plan), msg=f"{layout} cache, {cpv} over '{prev}': after {where} a later fault-free {op_kind} does not give the new state: "
+                    f"cache[{cpv!r}] -> {_brief(obs2['read'])}, keys {obs2['keys']!r}"[:900])
+                )
+        key = f"sweep:{layout}:{op_kind}:{sw.plan_class(events, plan)}:{out}"
         classes[key] = classes.get(key, 0) + 1
     return viol, classes, n
 
